@@ -566,6 +566,67 @@ def m_elem_used(ctx, o):
         _ = (e.vertices, e.faces)
 
 
+def m_partial_iter_translate(ctx, o):
+    """the container is walked only partly (a loop left early, a single next()) before an in-place transform of all members"""
+    it = iter(o)
+    next(it)
+    for g in o:
+        break
+    m_translate(ctx, o)
+
+
+def m_partial_iter_add(ctx, o):
+    """the same before another container's members are added (add() iterates over its argument)"""
+    kname = {1: 'CC', 2: 'SC', 3: 'VC'}[o.pdimension]
+    other = type(o)()
+    other.add(_spline(ctx, KINDS[kname]['extra'], prefix='X', salt=2))
+    other.add(_spline(ctx, KINDS[kname]['extra'], prefix='Y', salt=3))
+    it = iter(other)
+    next(it)
+    o.add(other)
+
+
+def _rejected(what):
+    """an edit the library rejects (it raises): not an edit - the definition read through the public accessors is what
+    it was, and Inv is then checked as after every mutator"""
+    def m(ctx, o):
+        before = _definition(o)
+        pd = o.pdimension
+        try:
+            if what == 'set_ctrlpts':            # a net of the wrong shape / points without a weight for a rational shape
+                pts = [list(q) for q in (o.ctrlptsw if o.rational else o.ctrlpts)]
+                if pd == 1:
+                    o.set_ctrlpts(pts[:o.degree])
+                elif pd == 2:
+                    o.set_ctrlpts(pts, o.ctrlpts_size_u + 1, o.ctrlpts_size_v)
+                else:
+                    o.set_ctrlpts(pts, o.ctrlpts_size_u, o.ctrlpts_size_v + 1, o.ctrlpts_size_w)
+            elif what == 'knotvector':           # wrong length
+                if pd == 1:
+                    o.knotvector = list(o.knotvector)[:-1]
+                else:
+                    o.knotvector_v = list(o.knotvector_v)[:-1]
+            elif what == 'delta':                # outside (0, 1)
+                if pd == 1:
+                    o.delta = ctx.lit(Fraction(3, 2))
+                else:
+                    setattr(o, 'delta_' + 'uvw'[pd - 1], ctx.lit(Fraction(3, 2)))
+            ctx.check_true('rejected.%s.raises' % what, False, 'the invalid request was accepted')
+        except Exception as e:                   # noqa: the library raises ValueError or GeomdlException here
+            ctx.check_true('rejected.%s.raises' % what, type(e).__name__ in ('ValueError', 'GeomdlException'), repr(e))
+        after = _definition(o)
+        for key in ('deg', 'size', 'normalize'):
+            ctx.check_true('rejected.%s.%s_unchanged' % (what, key), after[key] == before[key], '%r -> %r' % (before[key], after[key]))
+        ctx.check_true('rejected.%s.point_count_unchanged' % what, len(after['pts']) == len(before['pts']),
+                       '%d -> %d control points' % (len(before['pts']), len(after['pts'])))
+        if len(after['pts']) == len(before['pts']):
+            ctx.check_eq_grid('rejected.%s.ctrlpts_unchanged' % what, after['pts'], before['pts'])
+        for a, b in zip(after['kv'], before['kv']):
+            ctx.check_eq_vec('rejected.%s.knots_unchanged' % what, a, b)
+        ctx.check_eq_vec('rejected.%s.delta_unchanged' % what, after['delta'], before['delta'])
+    return m
+
+
 def m_elem_knot(ctx, o):
     e = list(o)[0]
     x = ctx.lit(Fraction(3, 8))
@@ -602,7 +663,8 @@ MUTATORS = {
     'insert_knot_sym': m_insert_knot_sym, 'remove_knot': None, 'refine': m_refine, 'reverse': m_reverse,
     'transpose': m_transpose, 'flip': m_flip, 'translate': m_translate, 'rotate': m_rotate, 'scale': m_scale,
     'add_dimension': m_add_dimension, 'add': m_add, 'add_used': m_add_used, 'elem_ctrlpts': m_elem_ctrlpts, 'elem_insert_knot': m_elem_knot,
-    'elem_ctrlpts_then_used': m_elem_used,
+    'rejected:set_ctrlpts': _rejected('set_ctrlpts'), 'rejected:knotvector': _rejected('knotvector'), 'rejected:delta': _rejected('delta'),
+    'elem_ctrlpts_then_used': m_elem_used, 'partial_iter+translate': m_partial_iter_translate, 'partial_iter+add': m_partial_iter_add,
 }
 # after these the new control points are linear combinations / contain cos, sin atoms (see _inv)
 LAZY_BBOX = ('insert_knot', 'insert_knot_v', 'insert_knot_w', 'insert_knot_sym', 'remove_knot', 'refine', 'rotate')
@@ -616,7 +678,8 @@ def _legal(kname, tier):
     """the public mutators of a class"""
     th = tier == 'thorough'
     if kname in CONTAINERS:
-        ms = ['add', 'add_used', 'delta', 'sample_size', 'translate', 'elem_ctrlpts', 'elem_insert_knot', 'elem_ctrlpts_then_used'] + (['scale', 'rotate'] if th else [])
+        ms = ['add', 'add_used', 'delta', 'sample_size', 'translate', 'elem_ctrlpts', 'elem_insert_knot', 'elem_ctrlpts_then_used',
+              'partial_iter+translate', 'partial_iter+add'] + (['scale', 'rotate'] if th else [])
         if kname != 'CC':
             ms += ['delta_u'] + (['sample_size_u'] if th or kname == 'SC' else []) + \
                   (['delta_v', 'sample_size_v'] if th else [])
@@ -638,7 +701,7 @@ def _legal(kname, tier):
              (['delta_v', 'delta_w', 'sample_size_v', 'sample_size_w', 'delta_u=v'] if th else [])
     if K['rat']:
         ms = ms + RATIONAL
-    return ms
+    return ms + ['rejected:set_ctrlpts', 'rejected:knotvector', 'rejected:delta']
 
 
 def _mut_instances(tier):
